@@ -16,7 +16,7 @@ From Coq Require Import List NArith Bool Permutation.
 From JV.lib Require Import Bytes.
 From JV.gen Require Import Collections RulesFacts.
 From JV.model Require Import OrderedMap LockDiscipline RulesBuilder RulesLocks.
-From JV.proofs Require Import OrderedMapProofs RulesBuilderProofs.
+From JV.proofs Require Import OrderedMapProofs OrderedMapEachProofs RulesBuilderProofs.
 Import ListNotations.
 
 (* Atomicity premise, on the regenerated facts: in every safe collection every writer holds
@@ -107,6 +107,75 @@ Theorem update_missing_noop :
   om_run K V keq vzero (ops ++ [OUpdate k f]) = om_run K V keq vzero ops.
 Proof. exact update_missing_noop_lemma. Qed.
 Print Assumptions update_missing_noop.
+
+(* Each / EachReverse when the callback returns an error (how the library stops at the first match, and how
+   every diagnostic produced inside a callback leaves the loop), for EVERY collection state and EVERY callback:
+   the callback was called on a prefix of the listing (of the reversed listing), an error is returned exactly
+   when some entry makes the callback fail, the entry it stopped at is the FIRST such entry, and without an
+   error every entry was visited.  The state is not changed (bcmd_step returns the collection it was given). *)
+Theorem each_stops_at_first_error :
+  forall (K V : Type) (keq : K -> K -> bool) (vzero : V) (stop : K -> V -> bool) (m : omap K V),
+  let r := om_each_until K V keq vzero stop m in
+  (exists rest, om_each K V keq vzero m = fst r ++ rest) /\
+  snd r = existsb (stops K V stop) (om_each K V keq vzero m) /\
+  (snd r = true -> exists pre kv, fst r = pre ++ [kv] /\ stops K V stop kv = true /\
+  forallb (fun x => negb (stops K V stop x)) pre = true) /\
+  (snd r = false -> fst r = om_each K V keq vzero m).
+Proof. exact each_until_spec_lemma. Qed.
+Print Assumptions each_stops_at_first_error.
+
+Theorem each_reverse_stops_at_first_error :
+  forall (K V : Type) (keq : K -> K -> bool) (vzero : V) (stop : K -> V -> bool) (m : omap K V),
+  let r := om_each_reverse_until K V keq vzero stop m in
+  (exists rest, rev (om_each K V keq vzero m) = fst r ++ rest) /\
+  snd r = existsb (stops K V stop) (om_each K V keq vzero m) /\
+  (snd r = true -> exists pre kv, fst r = pre ++ [kv] /\ stops K V stop kv = true /\
+  forallb (fun x => negb (stops K V stop x)) pre = true) /\
+  (snd r = false -> fst r = rev (om_each K V keq vzero m)).
+Proof. exact each_reverse_until_spec_lemma. Qed.
+Print Assumptions each_reverse_stops_at_first_error.
+
+(* a callback that never fails is the plain listing: the early-return model and the listing model agree *)
+Theorem each_never_fails_is_listing :
+  forall (K V : Type) (keq : K -> K -> bool) (vzero : V) (m : omap K V),
+  om_each_until K V keq vzero (fun _ _ => false) m = (om_each K V keq vzero m, false) /\
+  om_each_reverse_until K V keq vzero (fun _ _ => false) m = (rev (om_each K V keq vzero m), false).
+Proof. exact each_never_fails_is_listing_lemma. Qed.
+Print Assumptions each_never_fails_is_listing.
+
+(* Find returns the first entry of the listing that satisfies the predicate, none only when none does *)
+Theorem find_first_match :
+  forall (K V : Type) (keq : K -> K -> bool) (vzero : V) (p : K -> V -> bool) (m : omap K V),
+  match om_find K V keq vzero p m with
+  | Some kv => exists pre post, om_each K V keq vzero m = pre ++ kv :: post /\ stops K V p kv = true /\
+  forallb (fun x => negb (stops K V p x)) pre = true
+  | None => forallb (fun x => negb (stops K V p x)) (om_each K V keq vzero m) = true
+  end.
+Proof. exact find_first_match_lemma. Qed.
+Print Assumptions find_first_match.
+
+(* ... and is the entry an Each with the predicate as its failure condition stops at *)
+Theorem find_is_each_until :
+  forall (K V : Type) (keq : K -> K -> bool) (vzero : V) (p : K -> V -> bool) (m : omap K V),
+  match om_find K V keq vzero p m with
+  | Some kv => exists pre, fst (om_each_until K V keq vzero p m) = pre ++ [kv] /\
+  snd (om_each_until K V keq vzero p m) = true
+  | None => om_each_until K V keq vzero p m = (om_each K V keq vzero m, false)
+  end.
+Proof. exact find_is_each_until_lemma. Qed.
+Print Assumptions find_is_each_until.
+
+(* in every reachable state (every linearised history) a stopped Each has seen every key at most once and every
+   value it saw is the value Get returns for that key *)
+Theorem each_until_reachable :
+  forall (K V : Type) (keq : K -> K -> bool), (forall a b, keq a b = true <-> a = b) ->
+  forall (vzero : V) (ops : list (mop K V)) (stop : K -> V -> bool),
+  let m := om_run K V keq vzero ops in
+  let r := om_each_until K V keq vzero stop m in
+  NoDup (map fst (fst r)) /\
+  (forall k v, In (k, v) (fst r) -> om_get K V keq m k = Some v).
+Proof. exact each_until_reachable_lemma. Qed.
+Print Assumptions each_until_reachable.
 
 (* the Set variant (catalog.StringSet) under any sequence of Add from the zero value *)
 Theorem set_add_each_once :
